@@ -209,6 +209,10 @@ func CodecUniverse(level string) *Universe {
 	}
 	u.includeChains()
 	u.wideUnions(level == "full")
+	// a complex key (key record + $params record): library key type with its own equality and hash
+	ckKey := u.Record("CKeyPart", nil, Req("k1", P(String)), Req("k2", P(Int64)), Opt("k3", ArrayOf(P(String))))
+	ckPar := u.Record("CKeyParams", nil, Opt("p", P(String)), Opt("n", P(Int32)))
+	u.ComplexKey("CKey", ckKey, ckPar)
 	return u
 }
 
@@ -313,7 +317,9 @@ func (u *Universe) dataTypeJSONFor(t *Type, v2 bool) map[string]interface{} {
 		return map[string]interface{}{"fixed": base}
 	case t.Kind == Typeref:
 		base["type"] = t.Elem.Kind.String()
-		base["isCustom"] = t.Custom
+		// the schema parser never sets isCustom: the generator derives it from the presence of the
+		// hand-written <Type>.go in the output directory (LocateCustomTyperefs)
+		base["isCustom"] = false
 		return map[string]interface{}{"typeref": base}
 	case t.Kind == Record:
 		incs := []interface{}{}
